@@ -113,6 +113,28 @@ CHECKS.update({
              note=TB + "Only neighbourhood scans are counted, as the property states; heap maintenance cost is outside it.",
              tech="Coq proof (fuel = bound; potential argument for Dijkstra) + scan counting on instrumented graph types", ref="DESIGN.md §6 C19"),
 })
+CHECKS.update({
+ 'C13': dict(text="Theorems C13_tokeniser_two_tokens / C13_tokeniser_label_text / C13_index_round_trip (Coq): the model of findEdgeFromString (npos arithmetic verbatim) returns the two "
+                  "vertex tokens for EVERY line ws* tok ws+ tok ws*, and hands everything after the following whitespace to the label parser; std::stoi(std::to_string(n)) = n for n < 2^31. "
+                  "PARTIAL: the file-level round trip (statement kept as a definition), the comment rule and the name table are checked by correspondence: grammar-generated well-formed "
+                  "files (comments, tabs/spaces anywhere, names, int and string labels) against the model and an independent reading of the format; written files byte-for-byte against "
+                  "the model writer and reloaded == original.",
+             note=TB + "std::getline, std::string::find_first_of/substr, std::stoi and std::to_string are modelled by hand-written byte-list functions (validated by the correspondence).",
+             tech="Coq proof (tokeniser on all well-formed lines, decimal round trip) + grammar-based differential correspondence", ref="DESIGN.md §6 C13"),
+ 'C14': dict(text="Theorems C14_codec / C14_record_layout / C14_load_of_encoded_records (Coq): fixed-width little-endian codec with exact round trip, every record is 4+4+w bytes in that "
+                  "layout, a file of n records has n*(8+w) bytes, and loading the encoding of ANY record list (any order) yields the graph of exactly those records. PARTIAL: 'the writer "
+                  "emits one record per edge', graph equality after resize and std::runtime_error on unopenable files are checked by correspondence (multiset of records vs model and spec, "
+                  "reload == original, all label widths incl. float/double bit patterns).",
+             note=TB + "Little-endian host assumed; ifstream::read modelled as take-n-or-fail.",
+             tech="Coq proof (codec, layout, decode-encode on record lists) + differential correspondence on written and hand-made files", ref="DESIGN.md §6 C14"),
+ 'C15': dict(text="Theorems C15_truncated_binary (Coq): for every record list, label width and EVERY cut offset, the repaired loader returns exactly the graph of the complete records before "
+                  "the cut; C15_text_loaders_total: for EVERY byte string both text loaders end with a graph or a C++ exception (the model never reaches an unchecked index). The pinned "
+                  "loader's invented edge is kept as a kernel-checked example. Tie: every cut offset of generated binary files and a separate malformed-text stream, under ASan+UBSan; a "
+                  "crash or sanitizer report is reported as a violation with the input as replay.",
+             note=TB + "Memory safety itself is a runtime notion: the model proves definedness of its checked accesses; the sanitizer-instrumented correspondence exhibits the rest. "
+                  "Vertex indices above 3000 are outside the harness ('small enough to allocate').",
+             tech="Coq proof (parser on all prefixes; totality of the text loaders) + exhaustive cut-offset and malformed-input correspondence under sanitizers", ref="DESIGN.md §6 C15"),
+})
 NA = {'C20': "about the C++ type checker/linker accepting client programs (template instantiation, overload resolution, ODR): no executable Gallina model has a counterpart, so machine-checked proof cannot apply (DESIGN.md §6 C20)"}
 def main():
     props = [json.loads(l)['id'] for l in open(os.path.join(ROOT, 'properties.jsonl'))]
